@@ -132,14 +132,12 @@ class Installed:
             if not sched.managed():
                 return real_start(worker)
             inst.counter += 1
-            name = getattr(worker, "vf_name", None) or f"{type(worker).__name__}#{inst.counter}"
-            st = sched.register_thread(worker, name)
-            worker._vf_state = st
-            try:
-                worker._inbox.owner = name
-            except Exception:
-                pass
+            name = worker.__dict__.get("vf_name") or f"{type(worker).__name__}#{inst.counter}"
             orig_run = worker.run
+            # from here to the real start no code of the library runs (a line-level yield in between could hand the token to a
+            # thread that does not exist yet)
+            st = sched.register_thread(worker, name)
+            worker.__dict__["_vf_state"] = st
 
             def run():
                 try:
@@ -153,12 +151,12 @@ class Installed:
                 finally:
                     sched.thread_end(st)
 
-            worker.run = run
+            worker.__dict__["run"] = run
             real_start(worker)
             sched.yield_point("start")
 
         def join(worker, timeout=None):
-            st = getattr(worker, "_vf_state", None)
+            st = worker.__dict__.get("_vf_state")  # not getattr(): a worker's own __getattr__ may recurse on unknown names
             if st is not None and sched.managed():
                 hook = getattr(sched, "on_join", None)
                 if hook is not None:
